@@ -22,6 +22,10 @@ def run(ctx):
     if ctx.build_harness("c11"):
         ctx.harness("c11", ["run", ctx.seed, ctx.tier], timeout=3000)
     ctx.trusted += [
+        "the translator's reading of Drop for RotoConstant (statement by statement; a condition must be a test of the "
+        "constant's size against 0, anything else is an extraction failure) and of the registered-function collection "
+        "(field type + insertion statement in codegen); that a map keyed by TypeId collapses closures of one closure "
+        "expression is Rust's typing of closures",
         "std::sync::Arc (strong count; the value is dropped when the last clone is dropped), HashMap/Vec drop "
         "their elements, and Rust drops struct fields in declaration order (language rule)",
         "cranelift JITModule::free_memory releases the code and nothing else does (not verified); that freed JIT "
@@ -39,12 +43,15 @@ def run(ctx):
     return ctx.finish(
         level="proof",
         rule="histories on the real API: first the class representatives (last owner of a module = handle / clone / "
-             "closure made by into_func × order of dropping package, runtime, other handles × drop on another thread × "
-             "plain and context runtime), then every history = [build runtime, register constant, register closure] ++ "
+             "closure made by into_func / test case × order of dropping package, runtime, other handles × drop on another "
+             "thread × plain and context runtime; every resource kind alone, among them a zero-sized script constant, two "
+             "registered closures made by one closure expression — both / only the first / only the second called —, a "
+             "zero-sized closure), then every history = [build runtime, register constants, register closure, register "
+             "further closures] ++ "
              "suffix (≤ 7 ops quick / ≤ 8 thorough, one representative per set of identical handle clones / closures, "
              "ops: compile, get, clone, into_func, drop) ending in a drop, plus random histories (≤ 2 runtimes, ≤ 6 "
              "compilations, drops on another thread 1/3); scripts read tracked script constants, the registered constant, "
-             "the registered closure and (flag ud) string literals, f-string pieces, list literals, IP literals and "
+             "the registered closure, zero-sized script constants (z of them), the further closures selected by a mask and (flag ud) string literals, f-string pieces, list literals, IP literals and "
              "String / List script constants through checksums; after every step the heap is scribbled over, every "
              "tracked resource counted and every live handle / closure called; a class is distinct by (drop kind, set "
              "of resource kinds it released, number of runtimes/packages/handles still alive)",
